@@ -17,7 +17,7 @@ var flatListFields = []string{"To", "Bto", "CC", "BCC", "Audience"}
 
 // item tokens for flattened positions
 var flatTokens = func() []string {
-	t := []string{"iri", "obj", "obj-noid", "link", "link-noid", "link-untyped", "link-hashtag", "actor", "objv", "nil", "activity", "col", "list", "list1", "col1", "iris1"}
+	t := []string{"noid-nested", "noidv-nested", "noid-activity", "iri", "obj", "obj-noid", "link", "link-noid", "link-untyped", "link-hashtag", "actor", "objv", "nil", "activity", "col", "list", "list1", "col1", "iris1"}
 	// an embedded value of every non-collection object kind, pointer and value form
 	for _, k := range vmodel.Kinds {
 		if k.Fam == "collection" || k.Fam == "link" {
@@ -62,6 +62,17 @@ func flatItem(tok string, n int) vocab.Item {
 		return id
 	case "obj":
 		return &vocab.Object{ID: id, Type: vocab.NoteType, Name: vocab.NaturalLanguageValues{{Ref: vocab.NilLangRef, Value: vocab.Content("embedded")}}}
+	case "noid-nested", "noidv-nested":
+		// an object without an id that itself embeds objects with ids: it stays exactly as it was, inside included
+		o := vocab.Object{Type: vocab.NoteType, Name: vocab.NaturalLanguageValues{{Ref: vocab.NilLangRef, Value: vocab.Content(fmt.Sprintf("draft %d", n))}},
+			AttributedTo: &vocab.Actor{ID: id + "/author", Type: vocab.PersonType}, To: vocab.ItemCollection{&vocab.Actor{ID: id + "/reader", Type: vocab.PersonType}, vocab.IRI("https://example.com/flat/other-reader")},
+			Replies: &vocab.Object{ID: id + "/first-reply", Type: vocab.NoteType}}
+		if tok == "noidv-nested" {
+			return o
+		}
+		return &o
+	case "noid-activity":
+		return &vocab.Activity{Type: vocab.CreateType, Actor: &vocab.Actor{ID: id + "/creator", Type: vocab.PersonType}, Object: &vocab.Object{ID: id + "/created", Type: vocab.NoteType}, CC: vocab.ItemCollection{&vocab.Actor{ID: id + "/cc", Type: vocab.GroupType}}}
 	case "obj-noid":
 		return &vocab.Object{Type: vocab.NoteType, Name: vocab.NaturalLanguageValues{{Ref: vocab.NilLangRef, Value: vocab.Content(fmt.Sprintf("no id %d", n))}}}
 	case "link":
